@@ -585,6 +585,7 @@ Proof.
     assert (Lsnd : List.length (sval (rslot its 3)) = 32%nat).
     { unfold opt, is_bin in W3. rewrite Nsnd in W3. simpl in W3. apply Nat.eqb_eq in W3. exact W3. }
     rewrite Lpf, Lp, Lp1s, Lp2, Lp2s, Ls, Lsnd. unfold zeros at 2. rewrite repeat_length.
+    rewrite !N2Nat.id. change (128 + 6) with 134. change (128 + 3) with 131. change (128 + 1) with 129.
     unfold K_cred, K_pf, K_r, K_per, K_rnd, K_snd, K_step, K_sig, K_p, K_p1s, K_p2, K_p2s, K_ps, K_s.
     cbn [app N.of_nat N.to_nat Pos.to_nat Pos.iter_op Nat.add Pos.of_succ_nat Pos.succ].
     rewrite <- !app_assoc. cbn [app]. rewrite ?app_nil_r. reflexivity.
